@@ -122,6 +122,10 @@ class Evaluator:
                 return _num(-v[0])
             if op == '/' and v[1] != 0:
                 return _num(v[0] / v[1])
+            if op == 'idiv' and v[1] != 0:
+                q = v[0] / v[1]
+                import math
+                return _num(Fraction(math.trunc(q)))
             if op == 'max':
                 return _num(max(v))
             if op == 'min':
